@@ -49,7 +49,12 @@ fn c10_multinomial_inverse_cdf() {
         tot += k[i] as u32;
     }
     kani::assume(tot == 8);
-    let probs = [k[0] as f64 / 8.0, k[1] as f64 / 8.0, k[2] as f64 / 8.0, k[3] as f64 / 8.0];
+    let probs = [
+        k[0] as f64 / 8.0,
+        k[1] as f64 / 8.0,
+        k[2] as f64 / 8.0,
+        k[3] as f64 / 8.0,
+    ];
     let word: u64 = kani::any();
     let mut rng = SymRng { word, calls: 0 };
     let res = Multinomial::new(&probs[..n]).sample(&mut rng);
@@ -67,11 +72,20 @@ fn c10_multinomial_inverse_cdf() {
     }
     kani::cover!(n == 4 && want == 3, "last of four outcomes");
     kani::cover!(n == 3 && want == 1 && k[0] > 0, "middle outcome");
-    kani::cover!(m == (k[0] as u64) << 50 && k[0] > 0 && k[0] < 8, "variate exactly on the first boundary");
+    kani::cover!(
+        m == (k[0] as u64) << 50 && k[0] > 0 && k[0] < 8,
+        "variate exactly on the first boundary"
+    );
     kani::cover!(k[0] == 0 && want == 1, "zero-weight first outcome skipped");
     assert!(res < n, "C10 sampler: index out of range");
-    assert!(res == want, "C10 sampler: index is not the cumulative-probability interval containing the variate");
-    assert!(rng.calls == 1, "C10 sampler: must consume exactly one uniform variate");
+    assert!(
+        res == want,
+        "C10 sampler: index is not the cumulative-probability interval containing the variate"
+    );
+    assert!(
+        rng.calls == 1,
+        "C10 sampler: must consume exactly one uniform variate"
+    );
 }
 
 #[cfg(test)]
